@@ -117,7 +117,14 @@ class ScriptWorld(object):
                 name = {'minimize': smtcmd.MINIMIZE,
                         'maximize': smtcmd.MAXIMIZE, 'minmax': smtcmd.MINMAX,
                         'maxmin': smtcmd.MAXMIN}[c[1]]
-                sc.add(name, [c[2], [(':signed', c[3])]])
+                # (the options in either order: :id first, or :signed first)
+                self.nobj = getattr(self, 'nobj', 0) + 1
+                opts = [(':signed', c[3])]
+                if self.nobj % 3 == 1:
+                    opts = [(':id', 'goal%d' % self.nobj)] + opts
+                elif self.nobj % 3 == 2:
+                    opts = opts + [(':id', 'goal%d' % self.nobj)]
+                sc.add(name, [c[2], opts])
             elif k == 'push':
                 sc.add(smtcmd.PUSH, [c[1]])
             elif k == 'pop':
